@@ -20,7 +20,7 @@ import (
 
 // codecCtx carries what the divergence classifiers need about one case.
 type codecCtx struct {
-	res      interface {
+	res interface {
 		Corr(key, what string, replay any)
 		CorrAgree()
 		Divergence(key, what string, implAgrees bool, replay any)
@@ -816,4 +816,3 @@ func (cc *codecCtx) decodeValueCause(got proto.Message) string {
 	}
 	return cc.feat
 }
-
